@@ -130,7 +130,13 @@ CheckRec(r) ==
   /\ IF "c01" \in Families THEN \A j \in 1..Len(rec.times) : C01At(rec, j) ELSE TRUE
   /\ IF "c02" \in Families THEN C02(rec) ELSE TRUE
   /\ IF "c13" \in Families THEN \A j \in 1..Len(rec.times) : C13At(rec, j) ELSE TRUE
-  /\ IF "c14" \in Families THEN \A j \in 1..Len(rec.times) : C14At(rec, j) ELSE TRUE
+  /\ IF "c14" \in Families
+     THEN /\ \A j \in 1..Len(rec.times) : C14At(rec, j)
+          \* rec.fps: fingerprint of the source before, after significant_times, after the snapshots, after the sequence
+          /\ Chk(rec.fps[2] = rec.fps[1], rec.id, 0, "c14_source_changed_by_significant_times")
+          /\ Chk(rec.fps[3] = rec.fps[2], rec.id, 0, "c14_source_changed_by_snapshots")
+          /\ Chk(rec.fps[4] = rec.fps[3], rec.id, 0, "c14_source_changed_by_sequence")
+     ELSE TRUE
 
 B == 8
 Min2(a, b) == IF a < b THEN a ELSE b
